@@ -164,7 +164,15 @@ func snapLenFacts() string {
 		ast.Inspect(fd.Body, func(x ast.Node) bool {
 			if call, ok := x.(*ast.CallExpr); ok && strings.HasSuffix(src(call.Fun), ".NewTPacket") {
 				n++
-				if len(call.Args) != 2 || src(call.Args[0]) != "afp.SocketRaw" || !strings.HasPrefix(src(call.Args[1]), "afp.OptInterface(") {
+				// ring geometry options (frame / block size, number of blocks) would change what a captured frame
+				// can hold; a poll timeout does not
+				okOpts := len(call.Args) >= 2 && src(call.Args[0]) == "afp.SocketRaw" && strings.HasPrefix(src(call.Args[1]), "afp.OptInterface(")
+				for _, a := range call.Args[2:] {
+					if !strings.HasPrefix(src(a), "afp.OptPollTimeout(") {
+						okOpts = false
+					}
+				}
+				if !okOpts {
 					problem("snaplen: capture ring opened with non-default options %q", src(call))
 					reaches = false
 				}
@@ -181,19 +189,59 @@ func snapLenFacts() string {
 	// return data, &ci, err }`, vlanTagged = "ci.AncillaryData holds an afp.AncillaryVLAN")
 	dropsTagged := false
 	readOK := false
+	serialised := false // reads are serialised with Close and report io.EOF afterwards
+	copies := false     // the frame is copied out of the ring
 	if fd := findFunc(af, "Source", "ReadPacketData"); fd != nil {
 		body := fd.Body.List
 		if len(body) == 1 {
-			if loop, ok := body[0].(*ast.ForStmt); ok && loop.Init == nil && loop.Cond == nil && loop.Post == nil && len(loop.Body.List) == 3 {
-				if src(loop.Body.List[1]) == "if err == nil && vlanTagged(&ci) { continue }" {
-					body = []ast.Stmt{loop.Body.List[0], loop.Body.List[2]}
-					dropsTagged = true
+			if loop, ok := body[0].(*ast.ForStmt); ok && loop.Init == nil && loop.Cond == nil && loop.Post == nil {
+				var rest []ast.Stmt
+				for _, st := range loop.Body.List {
+					switch src(st) {
+					case "if err == nil && vlanTagged(&ci) { continue }":
+						dropsTagged = true
+					case "if err == afp.ErrTimeout { continue }":
+						// a poll that timed out delivered nothing
+					case "s.mu.Lock()", "s.mu.Unlock()":
+						serialised = true
+					case "if s.closed { s.mu.Unlock() return nil, nil, io.EOF }":
+						serialised = true
+					default:
+						rest = append(rest, st)
+					}
 				}
+				body = rest
 			}
 		}
-		if len(body) == 2 && strings.HasSuffix(src(body[0]), ".handle.ZeroCopyReadPacketData()") &&
-			strings.HasPrefix(src(body[0]), "data, ci, err := ") && src(body[1]) == "return data, &ci, err" {
-			readOK = true
+		if len(body) == 2 && strings.HasPrefix(src(body[0]), "data, ci, err := ") && src(body[1]) == "return data, &ci, err" {
+			switch {
+			case strings.HasSuffix(src(body[0]), ".handle.ZeroCopyReadPacketData()"):
+				readOK = true
+			case strings.HasSuffix(src(body[0]), ".handle.ReadPacketData()"):
+				readOK, copies = true, true
+			}
+		}
+		if serialised {
+			// Close must take the same lock, mark the source closed and only then unmap the ring
+			cl := findFunc(af, "Source", "Close")
+			want := []string{"s.mu.Lock()", "defer s.mu.Unlock()", "s.closed = true", "s.handle.Close()"}
+			if cl == nil || len(cl.Body.List) != len(want) {
+				serialised = false
+			} else {
+				for i, st := range cl.Body.List {
+					if src(st) != want[i] {
+						serialised = false
+					}
+				}
+			}
+			if !serialised {
+				problem("snaplen: afpacket.Source.ReadPacketData takes a lock that Close does not use as expected")
+			}
+		}
+		// a zero-copy frame is processed after the read has returned: without the copy, serialising the read
+		// alone would not keep Close from unmapping memory that is still in use
+		if serialised && !copies {
+			problem("snaplen: reads are serialised with Close but hand out ring memory (zero copy)")
 		}
 	}
 	if dropsTagged {
@@ -213,6 +261,8 @@ func snapLenFacts() string {
 		reaches = false
 	}
 	all["wiring.dropsVlanTagged"] = dropsTagged
+	all["wiring.readSerialisedWithClose"] = serialised
+	all["wiring.readCopiesFrame"] = copies
 	all["wiring.snaplenReachesSocket"] = reaches
 
 	var sb strings.Builder
@@ -222,5 +272,7 @@ func snapLenFacts() string {
 	sb.WriteString("def snaplenReachesSocket : Bool := " + leanBool(reaches) + "\n\n")
 	sb.WriteString("/-- `afpacket.Source.ReadPacketData` skips every frame the kernel delivered with a VLAN tag beside it\n    (`afpacket.AncillaryVLAN` in the capture info) -/\n")
 	sb.WriteString("def dropsVlanTagged : Bool := " + leanBool(dropsTagged) + "\n\n")
+	sb.WriteString("/-- `afpacket.Source.ReadPacketData` and `Close` take one mutex, `Close` marks the source closed before it unmaps\n    the ring, a read after that reports io.EOF, and the frame handed out is a copy (so nothing touches the ring once\n    `Close` has returned: the receiver goroutine outlives the engine run that started it) -/\n")
+	sb.WriteString("def readSafeAgainstClose : Bool := " + leanBool(serialised && copies) + "\n\n")
 	return sb.String()
 }
